@@ -40,6 +40,22 @@ func FullAlphabet() []Msg {
 	}
 }
 
+// LookalikeAlphabet: messages whose payload looks like something else: it ends
+// in (or consists of) the bytes of an end-of-track event, starts with a
+// status byte, or looks like a chunk header.
+func LookalikeAlphabet() []Msg {
+	return []Msg{
+		{"NoteOn0", midi.NoteOn(0, 60, 100)},
+		{"TextEndsLikeEOT", smf.MetaText("a\xff\x2f\x00")},
+		{"EscapeIsEOT", smf.Message([]byte{0xF7, 0xFF, 0x2F, 0x00})},
+		{"SysExEndsLikeEOT", smf.Message([]byte{0xF0, 0x01, 0xFF, 0x2F, 0x00})},
+		{"UndefEndsLikeEOT", smf.MetaUndefined(0x60, []byte{0x00, 0xFF, 0x2F, 0x00})},
+		{"TextLikeChunk", smf.MetaText("MTrk\x00\x00\x00\x04")},
+		{"NoteOn0b", midi.NoteOn(0, 0x2F, 0)}, // data bytes 2F 00
+		{"TextLikeStatus", smf.MetaText("\x90\x3c\x40")},
+	}
+}
+
 // SmallAlphabet (10) and TinyAlphabet (4) are nested subsets for deeper bounds.
 func SmallAlphabet() []Msg {
 	a := FullAlphabet()
